@@ -161,7 +161,26 @@ def reject_case(draw, tier):
     return {"method": draw(st.sampled_from(["poisson", "gaussian"])), "bad": draw(st.sampled_from(["negative", "too_large"])),
             "form": draw(st.sampled_from(["scalar", "array_one_bad", "array_all_bad"])),
             "shape": list(draw(gen.shape2(1, 8))), "pos": draw(st.integers(0, 63)),
-            "mag": draw(gen.pos_log(1e-3, 1e6)), "seed": draw(st.integers(0, 2**32 - 1))}
+            "mag": draw(gen.pos_log(1e-3, 1e6)), "seed": draw(st.integers(0, 2**32 - 1)),
+            # how the frame is stored: detector frames are often integer counts, and a saturated / flagged pixel
+            # holds the largest value of its type
+            "storage": draw(st.sampled_from(["float64", "float64", "int64", "uint64", "pyint", "int_list"])),
+            "int_bad": draw(st.sampled_from(["type_max", "limit_plus", "drawn"])),
+            "k": draw(st.integers(1, 2**20))}
+
+
+def _integer_bad(case):
+    """An out-of-range value that integer storage can hold exactly (None if this storage has none)."""
+    st_ = case["storage"]
+    if case["bad"] == "negative":
+        return None if st_ == "uint64" else -max(1, min(int(case["mag"] * 1000), 2**62))
+    top = {"int64": 2**63 - 1, "uint64": 2**64 - 1, "pyint": 2**64 - 1, "int_list": 2**63 - 1}[st_]
+    limit = int(9.223372006484771e+18)
+    if case["int_bad"] == "type_max":
+        return top
+    if case["int_bad"] == "limit_plus":
+        return min(limit + 1024 + case["k"], top)          # just above the documented limit, below 2^63
+    return min(limit + 1024 + (case["k"] * 7919) % (top - limit - 1024), top)
 
 
 @hyp("C18", "shot_noise_rejects", lambda tier: reject_case(tier),
@@ -170,18 +189,35 @@ def reject_case(draw, tier):
 def shot_noise_rejects(case, ctx):
     bad = -case["mag"] if case["bad"] == "negative" else 9.3e18 * (1 + case["mag"])
     shape = tuple(case["shape"])
-    if case["form"] == "scalar":
-        img = bad
-    elif case["form"] == "array_all_bad":
-        img = np.full(shape, bad)
+    storage = case.get("storage", "float64")
+    ibad = _integer_bad(case) if storage != "float64" else None
+    if ibad is None:
+        storage = "float64"
+    if storage == "float64":
+        if case["form"] == "scalar":
+            img = bad
+        elif case["form"] == "array_all_bad":
+            img = np.full(shape, bad)
+        else:
+            img = np.full(shape, 2000.0)
+            img.flat[case["pos"] % img.size] = bad
     else:
-        img = np.full(shape, 2000.0)
-        img.flat[case["pos"] % img.size] = bad
-    ctx.tag("method:" + case["method"], "bad:" + case["bad"], "form:" + case["form"])
+        bad = ibad
+        if case["form"] == "scalar":
+            img = bad if storage in ("pyint", "int_list") else np.dtype(storage).type(bad)
+        else:
+            vals = [bad] * int(np.prod(shape)) if case["form"] == "array_all_bad" else [2000] * int(np.prod(shape))
+            vals[case["pos"] % len(vals)] = bad
+            if storage in ("pyint", "int_list"):
+                img = [vals[r * shape[1]:(r + 1) * shape[1]] for r in range(shape[0])]      # nested list of Python ints
+            else:
+                img = np.array(vals, dtype=storage).reshape(shape)
+    ctx.tag("method:" + case["method"], "bad:" + case["bad"], "form:" + case["form"], "storage:" + storage,
+            f"int_bad:{case.get('int_bad')}" if storage != "float64" and case["bad"] == "too_large" else None)
     ctx.nontrivial_if(case["form"] == "array_one_bad")
     expect_raises("C18.shot.reject", (ValueError,),
                   lambda: detector.shot_noise(img, method=case["method"], seed=case["seed"]),
-                  f"shot_noise({case['method']}) with a {case['bad']} value ({case['form']})")
+                  f"shot_noise({case['method']}) with a {case['bad']} value {bad!r} ({case['form']}, stored as {storage})")
 
 
 @st.composite
@@ -191,6 +227,7 @@ def boundary_case(draw, tier):
                                              1e4, 1e6])) if draw(st.booleans()) else draw(gen.finite(0.0, 15.0)),
             "above": draw(st.sampled_from([None, None, None, 0, 1, 2, 1000])),
             "form": draw(st.sampled_from(["array_all", "array_one", "scalar"])),
+            "storage": draw(st.sampled_from(["float64", "float64", "int", "int"])),
             "seed": draw(st.integers(0, 2**32 - 1))}
 
 
@@ -208,14 +245,20 @@ def shot_noise_boundary(case, ctx):
     else:
         lam = top - case["k_sigma"] * sigma
     n = 4000
+    # the same ladder stored as integer counts: int64 below 2^63 (2^63 - 1 for the top rung itself), uint64 above
+    dt = float
+    if case.get("storage") == "int":
+        dt = np.int64 if lam < top else np.uint64
+        lam = int(lam)
     if case["form"] == "scalar":
-        img = lam
+        img = lam if dt is float else dt(lam)
     elif case["form"] == "array_all":
-        img = np.full((40, 100), lam)
+        img = np.full((40, 100), lam, dtype=dt)
     else:
-        img = np.full((40, 100), 5000.0)
+        img = np.full((40, 100), 5000, dtype=dt)
         img[17, 23] = lam
-    ctx.tag("method:" + case["method"], "form:" + case["form"],
+    lam = float(lam)
+    ctx.tag("method:" + case["method"], "form:" + case["form"], "storage:" + np.dtype(dt).name,
             "at_or_above_2^63" if lam >= top else ("within_10_sigma" if case["k_sigma"] < 10 else "below_10_sigma"))
     ctx.nontrivial_if(lam < top)
     what = f"shot_noise({case['method']}, signal 2^63 - {(top - lam) / sigma:.4g} sigma = {lam!r}, {case['form']})"
